@@ -927,6 +927,58 @@ def run_field_op(op, spec, doc, rnd=None, extra=None):
     return res, extras, src
 
 
+MUTATORS = {"arr": ["append", "extend", "insert", "setitem"], "deque": ["append", "appendleft", "extend"],
+            "map": ["setitem", "update", "setdefault"]}
+CONTAINER_NAME = {"arr": "Array", "deque": "Deque", "map": "Map"}
+
+
+def plan_mutators(rnd, spec, doc):
+    """For every collection field of a mutable owner: one mutator of its wrapper and a valid element to hand to it."""
+    out = {}
+    for f, t in spec.fields:
+        if spec.owner(f) != "plain" or t[0] not in MUTATORS or not doc.get(f):
+            continue
+        et = t[1] if t[1] is not None else ["any"]
+        out[f] = [rnd.choice(MUTATORS[t[0]]), gen_doc(rnd, et, spec)]
+    return out
+
+
+def run_mutator(spec, doc, extra):
+    """Assignment through the collection wrappers (x.f.append(e), x.f[0] = e, x.m.update({k: e}), ...): the element
+    handed over is an argument like any other.  Returns [(field, method, element type, shape, written, retained, paths)]."""
+    cls, ns, src = realize(spec)
+    ts = dict(spec.fields)
+    x = cls(**kwargs_of(spec, ns, doc))
+    out = []
+    for f, (method, edoc) in extra.items():
+        t = ts[f]
+        et = t[1] if t[1] is not None else ["any"]
+        e = doc_to_ctor(et, edoc, spec, ns)
+        shape = shape_of(et, e, spec, False)
+        before = snap(e)
+        w = getattr(x, f)
+        if t[0] == "map":
+            if method == "setitem":
+                w["nk"] = e
+            elif method == "update":
+                w.update({"nk": e})
+            else:
+                w.setdefault("nk", e)
+        elif method == "setitem":
+            w[0] = e
+        elif method == "insert":
+            w.insert(0, e)
+        elif method == "extend":
+            w.extend([e])
+        else:
+            getattr(w, method)(e)
+        written = snap(e) != before
+        ref = copy.deepcopy(x)
+        hits = probe({f: e}, lambda: inst_fp(x, ref), {f: et}, spec)
+        out.append((f, method, et, shape, written, bool(hits.get(f)), hits.get(f, [])))
+    return out, src
+
+
 def run_failing(op, spec, doc, bad_field, bad_value):
     """Constructing / deserializing an invalid input: must raise, and must leave every argument as it was."""
     from typedpy import Deserializer
@@ -1206,7 +1258,12 @@ def run_convert(doc, maps_ast):
 # ===================================================================================== replay
 
 def python_src(src, op, doc):
-    return src + "\n# operation: %s\n# input (document form): %r\n" % (op, doc)
+    try:
+        vals = repr(decode(doc))
+    except Exception:  # noqa
+        vals = "?"
+    return src + "\n# operation: %s\n# input (document form; {'$': kind, 'v': ...} = a python tuple / set / deque / object / wrapper): %r\n" \
+                 "# the python values handed over: %s\n" % (op, doc, vals)
 
 
 def replay(obj):
@@ -1227,6 +1284,18 @@ def replay(obj):
         print("required: every argument equal to its snapshot, no fingerprint change under mutation (typed fields, and "
               "every field of an ImmutableStructure / every field declared immutable)")
         return 1 if bad or extras else 0
+    if kind == "mutator":
+        spec = ClassSpec.from_json(obj["spec"])
+        outs, src = run_mutator(spec, obj["doc"], obj["extra"])
+        print(src)
+        print("instance built from (document form):", obj["doc"])
+        bad = 0
+        for f, method, et, shape, w, r, paths in outs:
+            print("x.%s.%s(%r): element type %s written=%s retained=%s %s" % (f, method, decode(obj["extra"][f][1]), json.dumps(et), w, r, paths))
+            if typed_inside(et) and (w or r):
+                bad += 1
+        print("required: the element handed to the mutator equals its snapshot, and mutating it afterwards does not change the instance (typed elements)")
+        return 1 if bad else 0
     if kind == "code":
         written, where, outcome = run_code_required((obj["schema"], obj["definitions"], obj["via_definitions"]))
         print("schema:", obj["schema"], "outcome:", outcome, "arguments modified at:", where)
@@ -1396,6 +1465,37 @@ def run(rep, tier):
             for k, what in fails:
                 rep.finding("C19/" + k, what, {"kind": "field", "spec": spec.to_json(), "op": "ctor" if op == "ctor-fail" else "deser",
                                                "doc": dict(doc, **{f: bad}), "python": python_src(src, op, doc)})
+    # assignment through the collection wrappers of mutable owners
+    for spec, doc, ops in plan[:nrandom]:
+        extra = plan_mutators(rnd, spec, doc)
+        if not extra:
+            continue
+        try:
+            outs, src = run_mutator(spec, doc, extra)
+        except Exception as e:  # noqa
+            rep.stat("mutator", "harness-error:" + type(e).__name__)
+            rep.broken("generator:mutator", "a wrapper mutator raised %s: %s on a generated valid element" % (type(e).__name__, e),
+                       {"kind": "mutator", "spec": spec.to_json(), "doc": doc, "extra": extra})
+            continue
+        ts = dict(spec.fields)
+        for f, method, et, shape, w, r, paths in outs:
+            site = "%s.%s" % (CONTAINER_NAME[ts[f][0]], method)
+            inside = typed_inside(et)
+            rep.count("mutator", 1, (site, json.dumps(et), shape))
+            rep.stat("mutator", "site:" + site)
+            rep.stat("mutator", "scope:" + ("typed" if inside else "untyped-by-design"))
+            desc = {"kind": "mutator", "spec": spec.to_json(), "doc": doc, "extra": {f: extra[f]}, "observed": [w, r, False],
+                    "py_violates": inside and (w or r)}
+            add_case("(CIntake OCtor OwnPlain %s %s %s)" % (emit_aty(et), shape, obs_lit(w, r, False)), desc)
+            if inside:
+                py = src + "\n# x built from %r; then x.%s.%s(%r)\n" % (doc, f, method, decode(extra[f][1]))
+                if w:
+                    rep.finding("C19/writes-arg/%s/%s" % (site, label(et)), "%s modified the element it was given" % site,
+                                dict(desc, python=py))
+                for p_ in paths:
+                    rep.finding("C19/retains-arg/%s/%s" % (site, p_),
+                                "mutating the element handed to %s afterwards changed the instance (%s kept by reference)" % (site, p_),
+                                dict(desc, python=py))
     rep.sample({"class": plan[0][0].source(), "document": plan[0][1], "operations": plan[0][2]})
     rep.sample({"class": plan[nrandom + 30][0].source(), "document": plan[nrandom + 30][1], "operations": plan[nrandom + 30][2]})
     rep.cov["streams"].setdefault("lattice", {})["classes"] = len(plan) - nrandom
@@ -1480,7 +1580,9 @@ def run(rep, tier):
             body += "Eval vm_compute in (indices_where predicted_violation cases 0).\n"
             shards.append(body)
         tail = "Definition cases : list case := [].\nEval vm_compute in (map (fun p => length (fst p)) (unsafe_sites alias_sites)).\n" \
-               "Eval vm_compute in (length (unsafe_sites alias_sites)).\n"
+               "Eval vm_compute in (length (unsafe_sites alias_sites)).\n" \
+               "Eval vm_compute in (map (fun b : bool => if b then 1 else 0) [struct_gate_ok copy_tables; field_gates_ok copy_tables; " \
+               "sites_intake_ok alias_sites; atomic_table (t_setattr copy_tables); atomic_table (t_set copy_tables); t_dict_gate copy_tables]).\n"
         res = core.eval_cases(shards + [tail], "c19", HEADER)
         mism, viol, pred = [], [], []
         bad_shard = None
@@ -1497,8 +1599,15 @@ def run(rep, tier):
         rep.cov["streams"]["coq"]["violations_predicted_by_model"] = len(pred)
         rc, out, err = res[-1]
         vals = core.parse_eval(out)
-        if rc == 0 and len(vals) == 2:
+        if rc == 0 and len(vals) == 3:
             rep.cov["streams"]["coq"]["unsafe_sites_in_current_source"] = core.parse_nat_list(vals[1])[0]
+            flags = core.parse_nat_list(vals[2])
+            names = ["struct_gate_ok(copy_tables)", "field_gates_ok(copy_tables)", "sites_intake_ok(alias_sites)",
+                     "atomic_table(t_setattr)", "atomic_table(t_set)", "t_dict_gate"]
+            # which hypotheses of the intake safety theorems hold of the tables generated from the CURRENT source
+            rep.cov["streams"]["coq"]["intake_theorem_hypotheses_now"] = {n: bool(b) for n, b in zip(names, flags)}
+        else:
+            rep.broken("correspondence:tables/coq-eval", "the generated tables could not be evaluated: " + (out + err)[-800:])
         # every violation the Coq-side spec predicate sees must have been reported by the Python-side clauses
         pyviol = {i for i, (_, d) in enumerate(cases) if d.get("py_violates")}
         unreported = sorted(set(viol) ^ pyviol)
